@@ -21,6 +21,7 @@ import (
 	"runtime"
 	"sort"
 	"strings"
+	"sync"
 	"time"
 
 	"github.com/sanonone/kektordb/internal/zzverif/vexec"
@@ -640,4 +641,108 @@ func c16IdleSleepers() int {
 		}
 	}
 	return n
+}
+
+// ---- long-lived (streaming) requests --------------------------------------------------------
+
+// c16StreamWriter is a ResponseWriter that can be read while the handler is still writing.
+type c16StreamWriter struct {
+	mu   sync.Mutex
+	hdr  http.Header
+	code int
+	buf  bytes.Buffer
+}
+
+func (w *c16StreamWriter) Header() http.Header { return w.hdr }
+func (w *c16StreamWriter) WriteHeader(c int) {
+	w.mu.Lock()
+	if w.code == 0 {
+		w.code = c
+	}
+	w.mu.Unlock()
+}
+func (w *c16StreamWriter) Write(b []byte) (int, error) {
+	w.mu.Lock()
+	defer w.mu.Unlock()
+	if w.code == 0 {
+		w.code = 200
+	}
+	return w.buf.Write(b)
+}
+func (w *c16StreamWriter) Flush() {}
+func (w *c16StreamWriter) snapshot() (int, []byte) {
+	w.mu.Lock()
+	defer w.mu.Unlock()
+	return w.code, append([]byte(nil), w.buf.Bytes()...)
+}
+
+type c16Event struct {
+	Type      string `json:"type"`
+	IndexName string `json:"index_name"`
+	ID        string `json:"id"`
+}
+
+// streamEpisode opens GET target with tok through the full chain and keeps the request open
+// while the ROOT token adds one vector with a fresh id to each index of `foreign` and then one
+// to `own` (the sentinel). Events reach a subscriber in the order they were emitted, so once the
+// sentinel's event is in the stream every earlier event that was going to be delivered has been
+// written. It returns the status, the events the stream carried, and whether the sentinel was
+// seen (if not - the stream was refused, or does not report vector additions - there is nothing
+// to judge). Waiting is bounded and only delays the read; no verdict depends on its length.
+func (f *c16Fix) streamEpisode(tok *c16Token, target, own string, foreign []string) (code int, evs []c16Event, raw []byte, sentinelSeen bool) {
+	ctx, cancel := context.WithCancel(context.Background())
+	w := &c16StreamWriter{hdr: http.Header{}}
+	r := httptest.NewRequest("GET", target, http.NoBody).WithContext(ctx)
+	r.Header["Authorization"] = []string{"Bearer " + tok.Token}
+	done := make(chan struct{})
+	go func() {
+		defer close(done)
+		f.h.ServeHTTP(w, r)
+	}()
+	wait := func(cond func() bool) bool {
+		deadline := time.Now().Add(3 * time.Second)
+		for !cond() {
+			select {
+			case <-done:
+				return cond()
+			default:
+			}
+			if time.Now().After(deadline) {
+				return cond()
+			}
+			time.Sleep(200 * time.Microsecond)
+			f.ctx.Touch()
+		}
+		return true
+	}
+	// the handler answers (status line) once it has subscribed or refused
+	wait(func() bool { c, _ := w.snapshot(); return c != 0 })
+	f.nonce++
+	add := func(index, id string) {
+		b, _ := json.Marshal(map[string]any{"index_name": index, "id": id, "vector": []float32{3, 1, 4, 1}, "metadata": map[string]any{"type": "doc"}})
+		f.do("POST", "/vector/actions/add", c16Root, b)
+	}
+	if c, _ := w.snapshot(); c >= 200 && c < 300 {
+		for k, ix := range foreign {
+			add(ix, fmt.Sprintf("evcnry%d_%d", f.nonce, k))
+		}
+		sentinel := fmt.Sprintf("evsentinel%d", f.nonce)
+		add(own, sentinel)
+		sentinelSeen = wait(func() bool { _, b := w.snapshot(); return bytes.Contains(b, []byte(sentinel)) })
+	}
+	cancel()
+	<-done
+	code, raw = w.snapshot()
+	for _, line := range bytes.Split(raw, []byte("\n")) {
+		if !bytes.HasPrefix(line, []byte("data:")) {
+			continue
+		}
+		var ev c16Event
+		if json.Unmarshal(bytes.TrimSpace(line[5:]), &ev) == nil {
+			evs = append(evs, ev)
+		}
+	}
+	f.lastObs = nil // the root writes changed the state: the next request takes a fresh baseline
+	f.settle()
+	return
 }
